@@ -308,6 +308,13 @@ let run_model (case : string) (impl : string) : string =
               let test = (o = "test") in
               let st0 = s.ms in
               let (p1, r1) = Model.accept test pol st0.Model.s_chain st0.Model.s_now st0.Model.s_pool t in
+              (* TRUC sibling eviction is a policy decision the model does not take: entries the implementation reports as
+                 replaced beyond the model's own replacement set (input conflicts and their descendants) join the eviction set *)
+              let ireplaced = removed_by "replaced" iw in
+              let evict = match r1 with
+                | Model.Accepted repl when not test ->
+                  evict @ List.filter (fun i -> not (List.mem i repl)) (List.map (fun n -> z (id_of s n)) ireplaced)
+                | _ -> evict in
               let (st1, r) = Model.process_transaction test pol evict st0 t in
               (match Model.step st0 (if test then Model.OpTest (t, pol) else Model.OpAccept (t, pol, evict)) with
                | Some x when x = st1 -> () | _ -> failwith "GLUE-MISMATCH atmp");
@@ -317,7 +324,9 @@ let run_model (case : string) (impl : string) : string =
                  acc.added <- [name];
                  let p2 = Model.expire p1 (z_of_zt (Z.sub (zt_of_z st0.Model.s_now) (zt_of_z st0.Model.s_expiry))) in
                  record s acc "expiry" p1 p2;
-                 record s acc "sizelimit" p2 st1.Model.s_pool;
+                 List.iter (fun i -> let nm = name_of s (z i) in
+                             acc.removed <- ((if List.mem nm ireplaced then "replaced" else "sizelimit"), nm) :: acc.removed)
+                   (diff (pool_ids p2) (pool_ids st1.Model.s_pool));
                  (* the "added" event is only fired when the entry survived LimitMempoolSize *)
                  if not (Model.in_pool st1.Model.s_pool t.Model.t_id) then acc.added <- []
                | _ -> ());
